@@ -24,12 +24,24 @@ type c07Case struct {
 	Ctx    int    `json:"ctx"` // see c07CtxNames
 	Idx    int    `json:"idx"`
 	Dbg    int    `json:"debugger"` // 0 none, 1 recording, 2 debug.NewDebugger fan-out, 3 scribbling
+	// Reuse: the same Engine value then executes the same script pair again in context Ctx2
+	Reuse bool `json:"engine_reused,omitempty"`
+	Ctx2  int  `json:"second_ctx,omitempty"`
 }
 
 var c07CtxNames = []string{"scripts only (no tx)", "1-in/1-out tx", "2-in/0-out tx", "3-in tx, other inputs unsigned", "tx whose previous txid has 31 bytes (built through the JSON API)",
 	"tx given, previous output nil, scripts given", "tx given, previous output without script, scripts given", "nil tx with a previous output, scripts given", "tx with no inputs"}
 
 func c07Exec(c c07Case) error {
+	eng := interpreter.NewEngine()
+	err := eng.Execute(c07Opts(c, c.Ctx)...)
+	if c.Reuse {
+		err = eng.Execute(c07Opts(c, c.Ctx2)...)
+	}
+	return err
+}
+
+func c07Opts(c c07Case, ctx int) []interpreter.ExecutionOptionFunc {
 	lock, unlock := libScript(c.Lock), libScript(c.Unlock)
 	var opts []interpreter.ExecutionOptionFunc
 	mkTx := func(nin, nout int) *bt.Tx {
@@ -46,7 +58,7 @@ func c07Exec(c c07Case) error {
 		return tx
 	}
 	prev := &bt.Output{Satoshis: 1000, LockingScript: lock}
-	switch c.Ctx {
+	switch ctx {
 	case 0:
 		opts = append(opts, interpreter.WithScripts(lock, unlock))
 	case 1:
@@ -87,7 +99,7 @@ func c07Exec(c c07Case) error {
 	case 3:
 		opts = append(opts, interpreter.WithDebugger(&recorder{scribble: true}))
 	}
-	return interpreter.NewEngine().Execute(opts...)
+	return opts
 }
 
 func c07Check(c c07Case) (fs []rep.Finding) {
@@ -103,6 +115,10 @@ func c07Check(c c07Case) (fs []rep.Finding) {
 	if f := rep.Guard(func() { _ = c07Exec(c) }); f != nil {
 		f.Key = fmt.Sprintf("%s|ctx=%d", f.Key, c.Ctx)
 		f.What += " — context: " + c07CtxNames[c.Ctx]
+		if c.Reuse {
+			f.Key = fmt.Sprintf("%s>%d|engine-reused", f.Key, c.Ctx2)
+			f.What += ", then on the same Engine: " + c07CtxNames[c.Ctx2]
+		}
 		fs = append(fs, *f)
 	}
 	return
@@ -228,6 +244,14 @@ var c07FlagSubset = []uint32{0, 0xffff, uint32(scriptflag.UTXOAfterGenesis), uin
 //	B: contexts    — script set x 16 flag words x 9 contexts x 5 indices x debuggers
 //	C: bytes       — every byte string of length<=2 as locking script x 3 unlocking seeds x 4 flag words x ctx {0,1}
 func c07Sizes(thorough bool) (a, b, c uint64) {
+	a, b, c, _ = c07Sizes4(thorough)
+	return
+}
+
+var c07ReuseFlags = []uint32{0, uint32(scriptflag.EnableSighashForkID | scriptflag.UTXOAfterGenesis), 0xffff &^ uint32(scriptflag.VerifyCleanStack)}
+
+// D: reuse — one Engine value executing the same script pair twice, in every ordered pair of the 9 contexts
+func c07Sizes4(thorough bool) (a, b, c, d uint64) {
 	ns := uint64(len(c07ScriptSet()))
 	sub := uint64(64)
 	if thorough {
@@ -240,13 +264,14 @@ func c07Sizes(thorough bool) (a, b, c uint64) {
 	}
 	b = ns * uint64(len(c07FlagSubset)) * 9 * 5 * dbg
 	c = (1 + 256 + 65536) * 3 * 4 * 2
+	d = ns * uint64(len(c07ReuseFlags)) * 81
 	return
 }
 
 var c07Idx = []int{-1, 0, 1, 2, 1<<31 - 1}
 
 func c07At(thorough bool, i uint64) c07Case {
-	a, b, _ := c07Sizes(thorough)
+	a, b, cN, _ := c07Sizes4(thorough)
 	set := c07ScriptSet()
 	switch {
 	case i < a:
@@ -272,6 +297,13 @@ func c07At(thorough bool, i uint64) c07Case {
 		i /= uint64(len(c07FlagSubset))
 		s := set[i]
 		return c07Case{Unlock: s[0], Lock: s[1], Flags: f, Ctx: ctx, Idx: idx, Dbg: dbg}
+	case i >= a+b+cN:
+		i -= a + b + cN
+		c1, c2 := int(i%9), int(i/9%9)
+		i /= 81
+		f := c07ReuseFlags[i%uint64(len(c07ReuseFlags))]
+		s := set[i/uint64(len(c07ReuseFlags))]
+		return c07Case{Unlock: s[0], Lock: s[1], Flags: f, Ctx: c1, Idx: 0, Reuse: true, Ctx2: c2}
 	default:
 		i -= a + b
 		ctx := int(i % 2)
@@ -294,26 +326,29 @@ func c07At(thorough bool, i uint64) c07Case {
 
 func init() {
 	p := register(&Prop{ID: "C07", Level: "model_checking",
-		Rule: "exhaustive exploration of Engine.Execute in isolated child processes (panic recovered per case; log.Fatal / out-of-memory / hang attributed through a progress marker and reproduced twice): (A) ALL 65,536 flag words x 64 (quick) / 256 (thorough) representative script pairs with a transaction; (B) ~1,400 script pairs (every opcode with 0/2/3 operands and inside an unexecuted branch, standard templates, multisig with junk signatures/keys/counts incl. 2^31-1 and 2^32, every malformed-signature class x key encodings, truncated pushes) x 16 flag words x 9 transaction contexts (none; 1-in/1-out; 2-in/0-out; other inputs unsigned; 31-byte previous txid built through JSON; nil previous output; previous output without script; nil tx; tx without inputs) x input index {-1,0,1,2,2^31-1} x debugger {none, recording, fan-out, scribbling}; (C) every byte string of length<=2 as locking script x 3 unlocking seeds x 4 flag words x with/without transaction. Oracle: Execute returns nil or an error, and allocates less than 32 MiB. The lockstep checks C05/C08/C19 additionally run ~10^7 executions under the same panic containment. states = distinct (context, debugger, outcome class) combinations; transitions = executions",
+		Rule: "exhaustive exploration of Engine.Execute in isolated child processes (panic recovered per case; log.Fatal / out-of-memory / hang attributed through a progress marker and reproduced twice): (A) ALL 65,536 flag words x 64 (quick) / 256 (thorough) representative script pairs with a transaction; (B) ~1,400 script pairs (every opcode with 0/2/3 operands and inside an unexecuted branch, standard templates, multisig with junk signatures/keys/counts incl. 2^31-1 and 2^32, every malformed-signature class x key encodings, truncated pushes) x 16 flag words x 9 transaction contexts (none; 1-in/1-out; 2-in/0-out; other inputs unsigned; 31-byte previous txid built through JSON; nil previous output; previous output without script; nil tx; tx without inputs) x input index {-1,0,1,2,2^31-1} x debugger {none, recording, fan-out, scribbling}; (C) every byte string of length<=2 as locking script x 3 unlocking seeds x 4 flag words x with/without transaction; (D) one Engine value executing each of the ~1,400 script pairs twice, in every ordered pair of the 9 contexts x 3 flag words. Oracle: Execute returns nil or an error, and allocates less than 32 MiB. The lockstep checks C05/C08/C19 additionally run ~10^7 executions under the same panic containment. states = distinct (context, debugger, outcome class) combinations; transitions = executions",
 	})
 	NewSpace(p, "c07", c07Check)
 	worker.Register(&worker.Space{
 		Name: "c07",
 		N: func(th bool) uint64 {
-			a, b, c := c07Sizes(th)
-			return a + b + c
+			a, b, c, d := c07Sizes4(th)
+			return a + b + c + d
 		},
 		Case:  func(th bool, i uint64) any { return c07At(th, i) },
 		Check: func(th bool, i uint64) []rep.Finding { return c07Check(c07At(th, i)) },
 		Class: func(th bool, i uint64) string {
 			c := c07At(th, i)
 			err := c07Exec(c)
+			if c.Reuse {
+				return fmt.Sprintf("reuse|ctx%d>ctx%d|%s", c.Ctx, c.Ctx2, errCode(err))
+			}
 			return fmt.Sprintf("ctx%d|dbg%d|idx%d|%s", c.Ctx, c.Dbg, c.Idx, errCode(err))
 		},
 	})
 	p.Run = func(r *rep.Run, thorough bool) {
-		a, b, c := c07Sizes(thorough)
-		r.Note("space_sizes", map[string]uint64{"flagsweep": a, "contexts": b, "bytes": c})
+		a, b, c, d := c07Sizes4(thorough)
+		r.Note("space_sizes", map[string]uint64{"flagsweep": a, "contexts": b, "bytes": c, "engine_reuse": d})
 		worker.Run(r, "c07", thorough, 16)
 		r.Note("states", r.DistinctCount())
 		r.Note("transitions", r.Evals())
